@@ -78,6 +78,10 @@ SELECTORS = [
     ("r.extra == 'e1' or r.n == 4", lambda d: d.get("extra", M) == "e1" or d.get("n", M) == 4),
     ("'red' in r.tags", lambda d: "tags" in d and "red" in d["tags"]),
     ("r.s == 'NOT FOUND' or r.q == 'IN OR OUT'", lambda d: d.get("s", M) == "NOT FOUND" or d.get("q", M) == "IN OR OUT"),
+    # helper functions about the record itself next to a field test: a record type without the field can still match
+    ("name(r) == 't/b' or r.s == 'x'", lambda d: d["$name"] == "t/b" or d.get("s", M) == "x"),
+    ("r.n == 2 or name(r) == 't/c'", lambda d: d.get("n", M) == 2 or d["$name"] == "t/c"),
+    ("has_field(r, 'q') or r.s == 'z'", lambda d: "q" in d or d.get("s", M) == "z"),
     # generator expressions: the engines disagree on records that lack the field (C08), so these two are
     # only drawn for inputs in which every record has it (see generate)
     ("any(t == 'red' for t in r.tags)", lambda d: any(t == "red" for t in d["tags"])),
@@ -454,7 +458,9 @@ def build_source(w, src, descs):
 
 # -- reference pipeline ---------------------------------------------------------------------------------
 def fields_dict(r):
-    return {f: getattr(r, f) for f in r._desc.fields}
+    d = {f: getattr(r, f) for f in r._desc.fields}
+    d["$name"] = r._desc.name  # for selectors that use name(r); cannot collide with a field name
+    return d
 
 
 def model_of(r, opts):
